@@ -421,8 +421,51 @@ DTYPES = {
     "ai": (2, None, "i", -(1 << 24), 1 << 24, True), "ah": (3, None, "h", -32768, 32767, True),
     "ab": (4, None, "b", -128, 127, True), "aB": (5, None, "B", 0, 255, True),
     "aH": (6, None, "H", 0, 65535, True), "af": (7, None, "f", -(1 << 24), 1 << 24, False),
+    "e8": (9, ">f8", None, -(1 << 24), 1 << 24, False),       # doubles in the other byte order: not a buffer of (native) doubles
 }
 LAYOUTS = ("c", "s2", "col", "r", "r2")     # contiguous, every 2nd entry, column of a 2-d array, reversed, reversed every 2nd
+# Record layouts `q<R>o<F>s[m]<K>`: the buffer is one field of a packed record array (structured dtype of R bytes per record, the
+# field at byte offset F), every K-th record, `m` = walked backwards.  The byte stride +-K*R is in general NOT a multiple of the
+# item size and the entries are not aligned: the buffer protocol describes such memory with strides in bytes.
+_REC_LAYOUT = __import__("re").compile(r"^q(\d{1,2})o(\d{1,2})s(m?)(\d)$")
+REC_LAYOUTS = ("q12o0s1", "q12o4s1", "q12o0sm1", "q9o0s1", "q9o1sm1", "q20o0sm1", "q20o12s1", "q10o2s2", "q10o0sm2", "q11o3s3",
+               "q16o8s1", "q24o0sm1", "q12o4s2", "q13o5sm3", "q8o0s2", "q17o9s1")
+ALIGN = 8       # alignment NumPy demands of an array of doubles before it calls it `aligned` (x86-64)
+
+
+def rec_layout(lay):
+    """None for the plain layouts; (record size, field offset, step in records) for a record layout"""
+    if lay in LAYOUTS:
+        return None
+    m = _REC_LAYOUT.match(lay)
+    if not m:
+        raise ValueError("layout " + lay)
+    R, fo, k = int(m.group(1)), int(m.group(2)), int(m.group(4))
+    if not (1 <= R <= 64 and 1 <= k <= 4):
+        raise ValueError("layout " + lay)
+    return R, fo, (-k if m.group(3) else k)
+
+
+def layout_fits(dt, lay):
+    """does a field of element type dt fit into the records of layout lay?"""
+    rl = rec_layout(lay)
+    if rl is None:
+        return True
+    isz = {"f8": 8, "i8": 8, "i4": 4, "i2": 2, "i1": 1, "u1": 1, "u2": 2, "f4": 4, "ro": 8, "e8": 8}.get(dt)
+    return isz is not None and rl[1] + isz <= rl[0]
+
+
+def layout_unaligned(lay, n):
+    """NumPy's verdict on a buffer of n doubles in layout lay (first byte of the allocation aligned): not aligned iff the
+    array has entries and the address of the first one, or (more than one entry) the byte stride, is no multiple of ALIGN.
+    A FieldVector is not constructible from such a buffer (NumPy exports the format `=d`), a NumPyVector shares it."""
+    rl = rec_layout(lay)
+    if rl is None or n == 0:
+        return False
+    R, fo, st = rl
+    size = max(1, n * abs(st))
+    first = fo + R * (size - 1 if st < 0 else 0)
+    return first % ALIGN != 0 or (n > 1 and (R * st) % ALIGN != 0)
 
 
 def make_buffer(np, dt, lay, vals):
@@ -453,10 +496,50 @@ def make_buffer(np, dt, lay, vals):
         arr = base[::-2][:n]
         arr[...] = conv
     else:
-        raise ValueError("layout " + lay)
+        R, fo, st = rec_layout(lay)
+        if not layout_fits(dt, lay):
+            raise ValueError("layout " + lay)
+        rdt = np.dtype({"names": ["x"], "formats": [npdt], "offsets": [fo], "itemsize": R})
+        rec = np.zeros(max(1, n * abs(st)), dtype=rdt)
+        rec.view(np.uint8)[...] = 77            # every byte of every record, padding included
+        rec["x"] = 77
+        arr = rec["x"][::st][:n]
+        arr[...] = conv
     if dt == "ro":
         arr.flags.writeable = False
     return arr
+
+
+class Guard:
+    """oracle for `nothing but the entries of the buffer is ever written`: the bytes of the allocation behind a buffer object
+    that do not belong to an entry the buffer shows (gaps of strided views, the other fields and the padding of records,
+    the rows/columns not selected) must keep the values they had when the object was made"""
+
+    def __init__(self, np, arr, what):
+        self.what = what
+        root = arr
+        while isinstance(root.base, np.ndarray):
+            root = root.base
+        self.raw = root.reshape(-1).view(np.uint8)
+        inside = np.zeros(self.raw.shape[0], dtype=bool)
+        if arr.size:
+            first = arr.__array_interface__["data"][0] - root.__array_interface__["data"][0]
+            for j in range(arr.shape[0]):
+                p = first + j * arr.strides[0]
+                if p < 0 or p + arr.itemsize > inside.shape[0]:
+                    raise RuntimeError("C20 harness: entry outside the allocation")
+                inside[p:p + arr.itemsize] = True
+        self.outside = np.flatnonzero(~inside)
+        self.snap = self.raw[self.outside].copy()
+        self.keep = (arr, root)
+
+    def violated(self):
+        now = self.raw[self.outside]
+        if (now == self.snap).all():
+            return None
+        k = int((now != self.snap).argmax())
+        return "%s: byte %d of the allocation, which is not part of any entry of the buffer, changed from %d to %d" % (
+            self.what, int(self.outside[k]), int(self.snap[k]), int(now[k]))
 
 
 STATE = types.SimpleNamespace(np=None, dc=None, FV={}, npv=None, npvnew=None, npvint=None, helper=None)
@@ -649,7 +732,9 @@ class Shadow:
         self.t = [None] * NT      # tuple vectors: list of ['d',val] | ['i',val] | ['F',blocklist]
         self.s = [None] * NT      # their Python-side sources
 
-    def construct(self, L):
+    def construct(self, L, kind=None):
+        if kind == "npb0" and L:  # a broadcast buffer (byte stride 0) shows its one number len(L) times
+            L = [L[-1]] * len(L)
         if self.kind == "fv":
             return (list(L) + [0] * self.n)[:self.n]
         return list(L)
@@ -748,6 +833,7 @@ class Exec:
         self.s = [None] * NT
         self.np = np
         self.trivial = True
+        self.guards = []          # see class Guard
 
     # ----- reading real objects ---------------------------------------------------------------------------
     def vlist(self, v):
@@ -793,9 +879,9 @@ class Exec:
             raise Skip("na")
 
     # ----------------------------------------------------------------------------------------- constructors
-    CTOR_KINDS = ("list", "tuple", "args", "np", "nps2", "nps3", "npsm1", "npsm2", "buf", "zero", "fac",
+    CTOR_KINDS = ("list", "tuple", "args", "np", "nps2", "nps3", "npsm1", "npsm2", "npb0", "buf", "zero", "fac",
                   "ilist", "ituple", "iargs", "npi", "npf32", "np2d")
-    OPERAND_KINDS = ("list", "ilist", "tuple", "np", "nps2", "npsm1", "buf")
+    OPERAND_KINDS = ("list", "ilist", "tuple", "np", "nps2", "npsm1", "npb0", "buf")
 
     def operand(self, kind, L):
         """the Python object of kind `kind` holding the numbers L (a fresh object every time)"""
@@ -823,6 +909,8 @@ class Exec:
             for j, e in enumerate(fl):
                 base[len(base) - 1 - j * s] = e
             return base[::-s][:len(fl)]
+        if kind == "npb0":      # read-only broadcast view: len(L) entries, byte stride 0, all showing the last number of L
+            return np.broadcast_to(np.float64(fl[-1]), (len(fl),)) if fl else np.zeros(0)
         if kind == "buf":
             return pyarray.array("d", fl)
         if kind == "npi":
@@ -843,10 +931,13 @@ class Exec:
         nb = None
         if how.startswith("nb_"):            # nb_<element type>_<layout>: a buffer object from make_buffer
             parts = how.split("_")
-            if len(parts) != 3 or parts[1] not in DTYPES or parts[2] not in LAYOUTS:
+            if len(parts) != 3 or parts[1] not in DTYPES:
                 raise ValueError("new kind")
+            rec_layout(parts[2])                  # ValueError for an unknown layout
             nb = (parts[1], parts[2])
             if (DTYPES[nb[0]][2] is not None or nb[0] == "ro") and nb[1] != "c":
+                raise Skip("na")
+            if not layout_fits(nb[0], nb[1]):
                 raise Skip("na")
         elif how not in self.CTOR_KINDS:
             raise ValueError("new kind")
@@ -867,8 +958,27 @@ class Exec:
             bad = None if DTYPES[nb[0]][0] in (0, 8) else "ERR:Value"
         else:
             bad = "ERR:Value" if how in ("npi", "npf32", "np2d") else None
+        # a buffer of doubles NumPy does not call aligned (a field of packed records): the constructor may reject it
+        # (ValueError; it does: the exported format is `=d`) or construct the vector with exactly the buffer's numbers --
+        # never anything else.  Either way the register stays as it is.
+        unal = bool(nb) and bad is None and self.kind == "fv" and layout_unaligned(nb[1], len(L))
+        if unal:
+            stat("ctor_unaligned")
+
+        def impl_unaligned():
+            buf = make_buffer(self.np, nb[0], nb[1], L)
+            if buf.flags.aligned:
+                return "HARNESS(alignment rule: NumPy calls %s with %d entries aligned)" % (nb[1], len(L))
+            try:
+                v = T(buf)
+            except ValueError:
+                return "unaligned-ok"
+            got = self.vlist(v)
+            return "unaligned-ok" if got == fmt_list(self.sh.construct(L)) else got
 
         def impl():
+            if unal:
+                return impl_unaligned()
             if how in ("args", "iargs"):
                 v = T(*self.operand("list" if how == "args" else "ilist", L))
             elif how == "zero":
@@ -889,7 +999,9 @@ class Exec:
         def exp():
             if bad:
                 return bad
-            blk = self.sh.construct(L)
+            if unal:
+                return "unaligned-ok"
+            blk = self.sh.construct(L, how)
             self.sh.x[x] = blk
             return fmt_list(blk)
         return self.both(impl, exp)
@@ -1038,7 +1150,7 @@ class Exec:
             raise Skip("skip")
         if self.kind == "dyn" and len(L) != len(A):
             raise Skip("skip")
-        B = self.sh.construct(L)
+        B = self.sh.construct(L, kind)
         R = [shop(q, p) if listfirst else shop(p, q) for p, q in zip(A, B)]
         if not ok_vals(R):
             raise Skip("skip")
@@ -1256,7 +1368,7 @@ class Exec:
                 raise Skip("skip")
             if self.kind == "dyn" and len(L) != len(A):
                 raise Skip("skip")
-            B = self.sh.construct(L)
+            B = self.sh.construct(L, okind)
             rhs = ("l", L)
         else:
             k = int(tk[2])
@@ -1377,7 +1489,7 @@ class Exec:
         def exp():
             if status == "type":
                 return "ERR:Type"
-            self.sh.x[x][:] = self.sh.construct(L)
+            self.sh.x[x][:] = self.sh.construct(L, okind)
             return fmt_list(self.sh.x[x])
         return self.both(impl, exp)
 
@@ -1539,7 +1651,7 @@ class Exec:
             o = self.operand(okind, L)
             r = (self.x[x] != o) if neg else (self.x[x] == o)
             return "true" if r is True else "false" if r is False else "NOTBOOL(%r)" % (r,)
-        return self.both(impl, lambda: "true" if ((self.sh.x[x] == self.sh.construct(L)) != neg) else "false")
+        return self.both(impl, lambda: "true" if ((self.sh.x[x] == self.sh.construct(L, okind)) != neg) else "false")
 
     def op_eql(self, tk):
         return self._cmpl(tk, False)
@@ -1614,7 +1726,7 @@ class Exec:
         def exp():
             if status == "type":
                 return "ERR:Type"
-            return str(sum(p * q for p, q in zip(self.sh.x[x], self.sh.construct(L))))
+            return str(sum(p * q for p, q in zip(self.sh.x[x], self.sh.construct(L, okind))))
         return self.both(impl, exp)
 
     def op_dotl(self, tk):
@@ -1751,9 +1863,12 @@ class Exec:
         (NumPy arrays of the common dtypes incl. a read-only one, array.array of several typecodes)"""
         self.only("fv", "dyn")
         a, b, dt, lay = reg(tk[1], "a", NA), reg(tk[2], "a", NA), tk[3], tk[4]
-        if len(tk) != 5 or dt not in DTYPES or lay not in LAYOUTS:
+        if len(tk) != 5 or dt not in DTYPES:
             raise ValueError("ndt")
+        rec_layout(lay)                       # ValueError for an unknown layout
         if (DTYPES[dt][2] is not None or dt == "ro") and lay != "c":
+            raise Skip("na")
+        if not layout_fits(dt, lay):
             raise Skip("na")
         self.need(self.sh.a[b])
         A = self.sh.a[b].vals()
@@ -1762,6 +1877,8 @@ class Exec:
 
         def impl():
             arr = make_buffer(self.np, dt, lay, [float(e) for e in self.a[b].tolist()])
+            if isinstance(arr, self.np.ndarray):
+                self.guards.append(Guard(self.np, arr, "a%d (ndt %s %s)" % (a, dt, lay)))
             self.a[a] = arr
             return self.alist(arr)
 
@@ -2252,6 +2369,12 @@ def execute(line):
             stat("obs_" + (e if e in ("skip", "na", "unbound") or e.startswith("ERR:") else "value"))
             if i != e and bad is None:
                 bad = "segment %d `%s`: bindings gave %s, expected %s" % (k, sg, i, e)
+            if bad is None:
+                for g in ex.guards:
+                    gv = g.violated()
+                    if gv:
+                        bad = "segment %d `%s`: memory outside the buffer was written: %s" % (k, sg, gv)
+                        break
         di, de = ex.dump()
         if di != de and bad is None:
             bad = "final state: bindings %s, expected %s" % (di, de)
@@ -2401,13 +2524,24 @@ def gen_program(r, idx, tier):
     stat("kind_%s%s_n%d" % (pre if kind == "fv" else "", kind, n))
     ctor_kinds = (["list", "tuple", "args", "np", "nps2", "nps3", "npsm1", "npsm2", "buf", "zero", "fac",
                    "list", "tuple", "args", "np", "nps2", "nps3", "npsm1", "npsm2", "buf", "zero", "fac",
-                   "ilist", "ituple", "iargs", "iargs", "npi", "npf32", "np2d"]
-                  if kind == "fv" else ["list", "list", "list", "list", "zero", "zero", "ilist", "tuple", "np", "buf", "npi"])
+                   "ilist", "ituple", "iargs", "iargs", "npi", "npf32", "np2d", "npb0"]
+                  if kind == "fv" else ["list", "list", "list", "list", "zero", "zero", "ilist", "tuple", "np", "buf", "npi",
+                                        "npb0"])
     dts = sorted(DTYPES)
+
+    def pick_layout(dt):
+        """memory layout of a buffer object: the plain ones (element strides) and fields of packed records (byte strides)"""
+        if DTYPES[dt][2] is not None or dt == "ro":
+            return "c"
+        if r.coin(2, 5):
+            fit = [q for q in REC_LAYOUTS if layout_fits(dt, q)]
+            if fit:
+                return r.pick(fit)
+        return r.pick(LAYOUTS)
     for _ in range(8):       # buffers of every element type and layout
-        dt = r.pick(dts)
-        ctor_kinds.append("nb_%s_%s" % (dt, "c" if (DTYPES[dt][2] is not None or dt == "ro") else r.pick(LAYOUTS)))
-    okinds_all = ["list", "ilist", "tuple", "np", "nps2", "npsm1", "buf"]
+        dt = "f8" if r.coin(1, 4) else r.pick(dts)
+        ctor_kinds.append("nb_%s_%s" % (dt, pick_layout(dt)))
+    okinds_all = ["list", "ilist", "tuple", "np", "nps2", "npsm1", "buf", "npb0"]
 
     def okind():
         return r.pick(okinds_all if kind == "fv" else ["list", "ilist", "tuple", "tuple", "np"])
@@ -2537,10 +2671,30 @@ def gen_program(r, idx, tier):
             segs.append("aset %s %d %d" % (ar(), gen_index_np(r, max(1, n - r.below(2))), gen_val(r)))
         elif op == "ndt":
             b = ar()
-            dt = r.pick(dts)
+            dt = r.weighted([("f8", 3), (r.pick(dts), 9)])      # doubles are what a NumPyVector<double> shares
             stat("ndt_" + dt)
-            segs.append("ndt %s %s %s %s" % (ar(True), b, dt,
-                                             "c" if (DTYPES[dt][2] is not None or dt == "ro") else r.pick(LAYOUTS)))
+            lay = pick_layout(dt)
+            stat("lay_" + ("rec" if rec_layout(lay) else lay))
+            if dt == "f8" and rec_layout(lay):
+                stat("lay_rec_f8" + ("_unaligned_stride" if (rec_layout(lay)[0] * rec_layout(lay)[2]) % 8 else ""))
+            tgt = ar(True)
+            segs.append("ndt %s %s %s %s" % (tgt, b, dt, lay))
+            if r.coin():          # use the new buffer object right away: a NumPy-backed C++ vector over it
+                pb = "b" if r.coin() else ""
+                fo = r.weighted([("nnorms", 2), ("nscale", 3), ("nrun", 2), ("nget", 2), ("nset", 2), ("nadd", 1), ("naxpy", 1)])
+                stat("op_" + fo)
+                if fo in ("nnorms", "nrun"):
+                    segs.append("%s%s %s" % (fo, pb, tgt))
+                elif fo == "nscale":
+                    segs.append("nscale%s %s %d" % (pb, tgt, gen_scalar(r)))
+                elif fo == "nget":
+                    segs.append("nget%s %s %d" % (pb, tgt, r.range(0, max(0, n - 1))))
+                elif fo == "nset":
+                    segs.append("nset%s %s %d %d" % (pb, tgt, r.range(0, max(0, n - 1)), gen_val(r)))
+                elif fo == "nadd":
+                    segs.append("nadd%s %s %s" % (pb, tgt, b))
+                else:
+                    segs.append("naxpy%s %s %d %s" % (pb, tgt, gen_scalar(r), b))
         elif op == "nvscale":
             segs.append("nvscale %s %d" % (xr(), gen_scalar(r)))
         elif op == "alist":
